@@ -665,9 +665,19 @@ func readUnion(tr *tokenReader) (Union, error) {
 
 			// This is a close curly-- we must advance past it or the union
 			// will read it and believe it is complete
+			if tr.keepNextToken {
+				// a member without fields leaves its close curly pending: take it
+				tr.Next()
+			}
 			if !tr.Next() {
 				return union, readError(tr.nextToken, "union definition ended early")
 			}
+			if tr.Token().kind == tokenKindCloseCurly {
+				// the union's own close curly, on the same line as the member's
+				return union, nil
+			}
+			// whatever follows the member belongs to the union body
+			tr.UnNext()
 			skipEndOfLineComments(tr)
 			optNewline(tr)
 
